@@ -20,6 +20,9 @@ class Sched:
         self.grace = grace
         self.errors = {}
         self.results = {}
+        self.want_reacquire = set()
+        self.may_reacquire = set()
+        self.free_run = False
 
     def tracer(self, name):
         def local(frame, event, arg):
@@ -88,7 +91,18 @@ class Sched:
                 return "blocked"
             return "line"
 
+    def grant_reacquire(self, name, wait=1.0):
+        """the model's wait_reacquire step: let `name` take the lock back after its Condition.wait()"""
+        with self.cv:
+            deadline = time.time() + wait
+            while name not in self.want_reacquire and time.time() < deadline:
+                self.cv.wait(0.05)
+            self.may_reacquire.add(name)
+            self.cv.notify_all()
+        time.sleep(0.02)
+
     def finish(self, timeout=3.0):
+        self.free_run = True
         """let everybody run to completion (or give up after timeout: a real deadlock)"""
         deadline = time.time() + timeout
         while time.time() < deadline:
@@ -103,13 +117,73 @@ class Sched:
         return all(n in self.done for n in self.threads)
 
 
-def run_schedule(files, fns, order, grace=0.4, finish=True):
+class GateLock:
+    """a real lock whose RE-acquisition at the end of Condition.wait() is a scheduler-controlled step
+    (the model's `wait_reacquire`): without it the woken thread races the others for the lock"""
+
+    def __init__(self, sched):
+        self.lock = threading.Lock()
+        self.sched = sched
+        self.local = threading.local()
+
+    def acquire(self, blocking=True, timeout=-1):
+        if getattr(self.local, "in_wait", False) and not self.sched.free_run:
+            name = threading.current_thread().name
+            with self.sched.cv:
+                self.sched.want_reacquire.add(name)
+                self.sched.cv.notify_all()
+                while name not in self.sched.may_reacquire and not self.sched.free_run:
+                    self.sched.cv.wait(0.05)
+                self.sched.may_reacquire.discard(name)
+                self.sched.want_reacquire.discard(name)
+        return self.lock.acquire(blocking, timeout)
+
+    def release(self):
+        self.lock.release()
+
+    def locked(self):
+        return self.lock.locked()
+
+    __enter__ = acquire
+
+    def __exit__(self, *a):
+        self.release()
+
+
+class GateCondition(threading.Condition):
+    def __init__(self, gatelock):
+        threading.Condition.__init__(self, gatelock)
+        self.gate = gatelock
+
+    def wait(self, timeout=None):
+        self.gate.local.in_wait = True
+        try:
+            return threading.Condition.wait(self, timeout)
+        finally:
+            self.gate.local.in_wait = False
+
+
+def gate(sched, obj, lock_attr="_lock", cv_attr="_cv"):
+    """replace obj's lock/condition pair by the gated versions (before any thread uses them)"""
+    gl = GateLock(sched)
+    setattr(obj, lock_attr, gl)
+    setattr(obj, cv_attr, GateCondition(gl))
+    return gl
+
+
+def run_schedule(files, fns, order, grace=0.4, finish=True, sched=None):
     """order: list of thread names (one entry per traced line to execute). returns Sched"""
-    s = Sched(files, grace)
+    s = sched or Sched(files, grace)
     s.start(fns)
     # first grant starts a thread: it runs up to its first traced line and reports it
     started = set()
-    for name in order:
+    for item in order:
+        name, internal = (item, None) if isinstance(item, str) else item
+        if internal == "wait_reacquire":
+            s.grant_reacquire(name)
+            continue
+        if internal is not None:
+            continue
         if name not in started:
             started.add(name)
             s.grant(name)          # run to the first line event (the line is reported, not yet executed)
